@@ -272,6 +272,51 @@ impl<'tcx> Ctx<'tcx> {
         }
         if let mir::Const::Unevaluated(u, _) = c.const_ {
             let _ = write!(o, ",\"def\":{}", jstr(&self.name(u.def)));
+            if let Some(p) = u.promoted {
+                // promoted temporaries (`&MatchOption::Any`, `&5u32`): summarise the tiny body
+                let _ = write!(o, ",\"promoted\":{}", p.as_usize());
+                let bodies = tcx.promoted_mir(u.def);
+                if p.as_usize() < bodies.len() {
+                    let pb = &bodies[p];
+                    'outer: for bb in pb.basic_blocks.iter() {
+                        for st in bb.statements.iter() {
+                            if let StatementKind::Assign(pr) = &st.kind {
+                                match &pr.1 {
+                                    Rvalue::Aggregate(k, fields) if fields.is_empty() => {
+                                        if let AggregateKind::Adt(did, vi, ..) = &**k {
+                                            let adt = tcx.adt_def(*did);
+                                            self.adts.insert(*did);
+                                            let _ = write!(
+                                                o,
+                                                ",\"variant\":{},\"adt\":{}",
+                                                jstr(&adt.variant(*vi).name.to_string()),
+                                                jstr(&self.key(*did))
+                                            );
+                                            break 'outer;
+                                        }
+                                    }
+                                    Rvalue::Use(Operand::Constant(cc), ..) => {
+                                        let cty = cc.const_.ty();
+                                        if matches!(cty.kind(), ty::Bool | ty::Int(_) | ty::Uint(_) | ty::Char) {
+                                            let env = TypingEnv::post_analysis(tcx, u.def);
+                                            if let Some(si) = cc.const_.try_eval_scalar_int(tcx, env) {
+                                                let size = si.size();
+                                                let v: i128 = match cty.kind() {
+                                                    ty::Int(_) => si.to_int(size),
+                                                    _ => si.to_uint(size) as i128,
+                                                };
+                                                let _ = write!(o, ",\"v\":{}", v);
+                                                break 'outer;
+                                            }
+                                        }
+                                    }
+                                    _ => {}
+                                }
+                            }
+                        }
+                    }
+                }
+            }
         }
         if let ty::Ref(_, inner, _) = ty.kind() {
             if inner.is_str() {
